@@ -267,3 +267,131 @@ func runNarrow(c *core.Ctx) []core.Obligation {
 }
 
 var _ = math.MaxInt8
+
+// R-BITSIZE — a value produced by strconv.ParseFloat/ParseInt/ParseUint with bit size B and then
+// converted to a narrower type must have been parsed for that width: parsing at 64 bits and
+// narrowing afterwards accepts out-of-range literals (1e39 into a float32 becomes +Inf) and rounds
+// twice.
+func init() {
+	Register(&Rule{
+		ID:    "R-BITSIZE",
+		Doc:   "every numeric narrowing conversion whose operand originates (through tuple extraction, φ, and the returns of one level of repository callees) from strconv.ParseFloat/ParseInt/ParseUint has a constant bitSize argument equal to (floats) or not larger than (integers) the width of the target type",
+		Props: []string{"C02", "C04"},
+		Min:   map[string]int{"C02": 1, "C04": 1},
+		Run:   runBitSize,
+	})
+}
+
+// parseOrigins: strconv.Parse* calls that can produce v.
+func parseOrigins(c *core.Ctx, v ssa.Value, depth int, seen map[ssa.Value]bool) []*ssa.Call {
+	if v == nil || seen[v] || depth > 6 {
+		return nil
+	}
+	seen[v] = true
+	var out []*ssa.Call
+	switch x := v.(type) {
+	case *ssa.Extract:
+		out = append(out, parseOrigins(c, x.Tuple, depth+1, seen)...)
+	case *ssa.Phi:
+		for _, e := range x.Edges {
+			out = append(out, parseOrigins(c, e, depth+1, seen)...)
+		}
+	case *ssa.Convert:
+		// a same-width or widening step in between does not matter
+		out = append(out, parseOrigins(c, x.X, depth+1, seen)...)
+	case *ssa.Call:
+		n := calleeName(x.Common())
+		if n == "strconv.ParseFloat" || n == "strconv.ParseInt" || n == "strconv.ParseUint" {
+			return []*ssa.Call{x}
+		}
+		if f := staticCallee(x.Common()); f != nil && c.InRepo(f) && f.Blocks != nil {
+			for _, r := range returnsOf(f) {
+				for _, res := range r.Results {
+					if bt, ok := res.Type().Underlying().(*types.Basic); ok && bt.Info()&types.IsNumeric != 0 {
+						out = append(out, parseOrigins(c, res, depth+1, seen)...)
+					}
+				}
+			}
+		}
+	}
+	return out
+}
+
+func runBitSize(c *core.Ctx) []core.Obligation {
+	b := newOb(c, "R-BITSIZE")
+	width := func(t types.Type) (int64, bool, bool) { // bits, isFloat, ok
+		bt, ok := t.Underlying().(*types.Basic)
+		if !ok {
+			return 0, false, false
+		}
+		switch bt.Kind() {
+		case types.Float32:
+			return 32, true, true
+		case types.Float64:
+			return 64, true, true
+		case types.Int8, types.Uint8:
+			return 8, false, true
+		case types.Int16, types.Uint16:
+			return 16, false, true
+		case types.Int32, types.Uint32:
+			return 32, false, true
+		case types.Int64, types.Uint64, types.Int, types.Uint, types.Uintptr:
+			return 64, false, true
+		}
+		return 0, false, false
+	}
+	for _, fn := range c.RepoFunctions() {
+		if fn.Blocks == nil || fn.Synthetic != "" {
+			continue
+		}
+		name := shortName(fn)
+		var props []string
+		switch {
+		case strings.HasPrefix(name, "json."):
+			props = []string{"C02"}
+		case strings.HasPrefix(name, "thrift."):
+			props = []string{"C04"}
+		default:
+			continue
+		}
+		k := 0
+		for _, blk := range fn.Blocks {
+			for _, in := range blk.Instrs {
+				cv, ok := in.(*ssa.Convert)
+				if !ok {
+					continue
+				}
+				tw, tf, ok1 := width(cv.Type())
+				sw, sf, ok2 := width(cv.X.Type())
+				if !ok1 || !ok2 || tf != sf || tw >= sw {
+					continue
+				}
+				calls := parseOrigins(c, cv.X, 0, map[ssa.Value]bool{})
+				if len(calls) == 0 {
+					continue
+				}
+				k++
+				key := fmt.Sprintf("bitsize:%s#%d", name, k)
+				bad := ""
+				for _, call := range calls {
+					args := call.Common().Args
+					bits, isK := constInt(args[len(args)-1])
+					switch {
+					case !isK:
+						bad = "a bit size that is not a constant"
+					case tf && bits != tw:
+						bad = fmt.Sprintf("bit size %d", bits)
+					case !tf && bits > tw:
+						bad = fmt.Sprintf("bit size %d", bits)
+					}
+				}
+				if bad != "" {
+					b.addP(props, core.Violation, key, c.InstrPos(cv), fmt.Sprintf("%s narrows to %s a value parsed by strconv with %s: literals beyond the target's range are accepted and wrap or become ±Inf instead of being rejected, and floats are rounded twice", name, typeShort(cv.Type()), bad))
+				} else {
+					b.addP(props, core.Discharged, key, c.InstrPos(cv), fmt.Sprintf("parsed with the bit size of %s", typeShort(cv.Type())))
+				}
+			}
+		}
+	}
+	return b.out
+}
